@@ -89,6 +89,9 @@ def route_grammars(R):
                 R.Rule('BYT', T(R.Byte(0x41))),
                 R.Rule('NEST', T(T(R.Str('n')))),
                 R.Rule('EMPTY', R.Choice(R.Seq(R.Ref('X'), R.Str('x')), R.Seq(R.Call(R.Ref('X'), []), R.Str('z')))),
+                # a template that invokes its parameter with an empty argument list, given a rule
+                R.Rule('PK', R.Seq(R.Call(R.Ref('q'), []), R.Str('!')), params=['q']),
+                R.Rule('PKU', R.Choice(R.Call(R.Ref('PK'), [R.Ref('X')]), R.Ref('X'))),
                 R.Rule('X', R.Regex('b+'))]
     G.append(('templates', templates, {}))
 
@@ -1489,6 +1492,21 @@ def parameterless_call_key(bad, stats):
                         callees.append('wrapped:' + ast.unparse(v.args[0]))
             elif s:
                 callees.append(s[0])
+        # the same inside a template: `q()` on a parameter requests what the parameter holds
+        pk = functions_top(m.tree).get(impl('PK'))
+        if pk is None:
+            raise AnalysisError(f'{m.label}: route rule PK missing')
+        penv = local_assignments(pk)
+        stats['empty_calls'] += 1
+        for callee, pos, y in requests_in(pk):
+            if isinstance(callee, ast.Name) and callee.id in penv:
+                for v in penv[callee.id]:
+                    if isinstance(v, ast.Call) and isinstance(v.func, ast.Name) and v.func.id == '_ParseFunction' \
+                            and v.args and ast.unparse(v.args[0]) == 'q':
+                        bad('C07-call-key', f'{m.label}: `q()` on the template parameter q is requested through a '
+                                            f'_ParseFunction wrapper: when q holds a parameterless rule R it is '
+                                            f'memoised under a different key than the plain reference `R`, so the '
+                                            f'rule body runs twice at one position')
         if any(c.startswith('wrapped:') and c.endswith(impl('X')) for c in callees):
             bad('C07-call-key', f'{m.label}: `X()` on the parameterless rule X is requested through a _ParseFunction '
                                 f'wrapper: it is memoised under a different key than the plain reference `X`, so '
